@@ -146,10 +146,20 @@ func decodeStruct(p Paragraph, into reflect.Value) error {
 		field := into.Field(i)
 		fieldType := into.Type().Field(i)
 
-		if field.Type().Kind() == reflect.Struct {
-			err := decodeStruct(p, field)
-			if err != nil {
-				return err
+		if field.Type().Kind() == reflect.Struct && field.Type() != paragraphType {
+			/* Plain nested structs share the paragraph's fields; values that
+			 * decode themselves (and the raw Paragraph) are not walked, or
+			 * fields such as "Epoch", "CPU" or "Values" would be written into
+			 * their internals. */
+			custom := false
+			if field.CanAddr() && field.Addr().CanInterface() {
+				_, custom = field.Addr().Interface().(Unmarshallable)
+			}
+			if !custom {
+				err := decodeStruct(p, field)
+				if err != nil {
+					return err
+				}
 			}
 		}
 
